@@ -285,6 +285,8 @@ pub struct FrontendCtx<'a, R: FileManager> {
     // module items being resolved through imports / re-exports (a circle of re-exports must not recurse for ever)
     resolving_types: BTreeSet<ModuleItemAddress>,
     resolving_values: BTreeSet<ModuleItemAddress>,
+    // values whose initialiser is being typed (`const a = b; const b = a` must not recurse for ever)
+    typing_values: BTreeSet<ModuleItemAddress>,
     jsdoc_cache_by_file: BTreeMap<BffFileName, JsdocFileCache>,
 }
 
@@ -1135,6 +1137,7 @@ impl<'a, R: FileManager> FrontendCtx<'a, R> {
             recursive_generic_uuids: BTreeSet::new(),
             resolving_types: BTreeSet::new(),
             resolving_values: BTreeSet::new(),
+            typing_values: BTreeSet::new(),
             jsdoc_cache_by_file: BTreeMap::new(),
         }
     }
@@ -2586,7 +2589,16 @@ impl<'a, R: FileManager> FrontendCtx<'a, R> {
         anchor: &Anchor,
     ) -> Res<Runtype> {
         let addressed_value = self.get_addressed_value(address, anchor)?;
-        self.extract_addressed_value(addressed_value, anchor)
+        // a value defined in terms of itself has no type
+        if !self.typing_values.insert(address.clone()) {
+            return self.error(
+                anchor,
+                DiagnosticInfoMessage::CannotNotResolveValue(address.clone()),
+            );
+        }
+        let res = self.extract_addressed_value(addressed_value, anchor);
+        self.typing_values.remove(address);
+        res
     }
 
     fn get_addressed_qualified_value_from_entity_name(
